@@ -713,3 +713,280 @@ Proof.
   intros u. apply den_ext. intros w Hw. unfold upd.
   destruct (token_eqb w v) eqn:E; [ apply token_eqb_eq in E; subst; contradiction | reflexivity ].
 Qed.
+
+(* ------------------------------------------------------------------------------ *)
+(* placement: ArrayMap.static + `M[lhs] = td[rhs]` put each derivative in its cell  *)
+(* ------------------------------------------------------------------------------ *)
+
+Local Close Scope R_scope.
+Local Open Scope nat_scope.
+
+Section Placement.
+Context {V : Type}.
+Variable zero : V.
+Variable td : nat -> nat -> V.
+
+Definition lhs_of (e : entry) : nat * nat := let '(lr, lc, _, _) := e in (lr, lc).
+
+Lemma hits_iff : forall r c e, hits r c e = true <-> lhs_of e = (r, c).
+Proof.
+  intros r c [[[lr lc] rr] rc]. unfold hits, lhs_of. rewrite andb_true_iff, !Nat.eqb_eq.
+  split; [ intros [-> ->]; reflexivity | intros E; inversion E; auto ].
+Qed.
+
+(* a map in which no cell is written twice *)
+Definition functional (entries : list entry) : Prop :=
+  forall e1 e2, In e1 entries -> In e2 entries -> lhs_of e1 = lhs_of e2 -> e1 = e2.
+
+Lemma cell_hit : forall entries lr lc rr rc, functional entries -> In (lr, lc, rr, rc) entries ->
+  cell zero td entries lr lc = td rr rc.
+Proof.
+  intros entries lr lc rr rc F Hin. unfold cell.
+  destruct (find (hits lr lc) (rev entries)) as [e | ] eqn:E.
+  - apply find_some in E as [Hin' Hh]. apply in_rev in Hin'. apply hits_iff in Hh.
+    assert (e = (lr, lc, rr, rc)) by (apply F; auto). subst e. reflexivity.
+  - exfalso. assert (Hh : hits lr lc (lr, lc, rr, rc) = false).
+    { apply (find_none _ _ E). now apply in_rev in Hin. }
+    assert (Ht : hits lr lc (lr, lc, rr, rc) = true) by (apply hits_iff; reflexivity).
+    congruence.
+Qed.
+
+Lemma cell_miss : forall entries r c, (forall e, In e entries -> lhs_of e <> (r, c)) -> cell zero td entries r c = zero.
+Proof.
+  intros entries r c H. unfold cell.
+  destruct (find (hits r c) (rev entries)) as [e | ] eqn:E; [ | reflexivity ].
+  apply find_some in E as [Hin Hh]. apply in_rev in Hin. apply hits_iff in Hh. exfalso. exact (H e Hin Hh).
+Qed.
+End Placement.
+
+(* column lookup: the column recorded for a token holds that token *)
+Lemma col_from_sound : forall cols i t c, col_from cols i t = Some c ->
+  i <= c /\ nth_error cols (c - i) = Some (Some t).
+Proof.
+  induction cols as [ | x r IH]; intros i t c H; simpl in H; [ discriminate | ].
+  destruct (col_from r (S i) t) as [j | ] eqn:E.
+  - inversion H; subst j. destruct (IH _ _ _ E) as [L N]. split; [ lia | ].
+    replace (c - i) with (S (c - S i)) by lia. exact N.
+  - destruct x as [u | ]; simpl in H; [ | discriminate ].
+    destruct (token_eqb u t) eqn:Eq; [ | discriminate ].
+    inversion H; subst c. apply token_eqb_eq in Eq. subst u. split; [ lia | ]. now rewrite Nat.sub_diag.
+Qed.
+
+Lemma col_of_sound : forall cols t c, col_of cols t = Some c -> nth_error cols c = Some (Some t).
+Proof. intros cols t c H. apply col_from_sound in H as [_ N]. now rewrite Nat.sub_0_r in N. Qed.
+
+Lemma col_from_complete : forall cols i t, In (Some t) cols -> exists c, col_from cols i t = Some c.
+Proof.
+  induction cols as [ | x r IH]; intros i t H; simpl in H; [ contradiction | ]. simpl.
+  destruct (col_from r (S i) t) as [j | ] eqn:E; [ eauto | ].
+  destruct H as [-> | H].
+  - simpl. rewrite token_eqb_refl. eauto.
+  - destruct (IH (S i) t H) as [c Hc]. congruence.
+Qed.
+
+Lemma col_of_none : forall cols t, col_of cols t = None -> ~ In (Some t) cols.
+Proof. intros cols t H Hin. destruct (col_from_complete cols 0 t Hin) as [c Hc]. unfold col_of in H. congruence. Qed.
+
+Lemma col_of_inj : forall cols t u c, col_of cols t = Some c -> col_of cols u = Some c -> t = u.
+Proof. intros cols t u c H1 H2. apply col_of_sound in H1, H2. congruence. Qed.
+
+(* which entries a single equation contributes *)
+Lemma raw_map_single_In : forall toks cols rhs_row lhs_row rcol off lr lc rr rc,
+  In (lr, lc, rr, rc) (raw_map_single toks cols rhs_row lhs_row rcol off) <->
+  lr = lhs_row /\ rc = rcol /\
+  exists k t c, nth_error toks k = Some t /\ col_of cols t = Some c /\ lc = off + c /\ rr = rhs_row + k.
+Proof.
+  induction toks as [ | x r IH]; intros cols rhs_row lhs_row rcol off lr lc rr rc; simpl.
+  - split; [ contradiction | intros (_ & _ & k & t & c & H & _) ]. destruct k; discriminate.
+  - destruct (col_of cols x) as [cx | ] eqn:E; simpl; rewrite IH; split.
+    + intros [H | (-> & -> & k & t & c & Hk & Hc & -> & ->)].
+      * inversion H; subst. repeat split; auto. exists 0, x, cx. simpl. repeat split; auto; lia.
+      * repeat split; auto. exists (S k), t, c. simpl. repeat split; auto; lia.
+    + intros (-> & -> & k & t & c & Hk & Hc & -> & ->). destruct k as [ | k]; simpl in Hk.
+      * inversion Hk; subst t. rewrite E in Hc. inversion Hc; subst c. left. now rewrite Nat.add_0_r.
+      * right. repeat split; auto. exists k, t, c. repeat split; auto; lia.
+    + intros (-> & -> & k & t & c & Hk & Hc & -> & ->).
+      repeat split; auto. exists (S k), t, c. simpl. repeat split; auto; lia.
+    + intros (-> & -> & k & t & c & Hk & Hc & -> & ->). destruct k as [ | k]; simpl in Hk.
+      * inversion Hk; subst t. congruence.
+      * repeat split; auto. exists k, t, c. repeat split; auto; lia.
+Qed.
+
+Lemma static_from_In : forall m offs cols rcol off eids row0 lr lc rr rc,
+  In (lr, lc, rr, rc) (static_from m offs cols rcol off eids row0) <->
+  exists i eid, nth_error eids i = Some eid /\ lr = row0 + i /\ rc = rcol /\
+  exists k t c, nth_error (wrt_of m eid) k = Some t /\ col_of cols t = Some c /\ lc = off + c /\
+                rr = offset_of offs eid + k.
+Proof.
+  intros m offs cols rcol off eids. induction eids as [ | e r IH]; intros row0 lr lc rr rc; simpl.
+  - split; [ contradiction | intros (i & eid & H & _) ]. destruct i; discriminate.
+  - rewrite in_app_iff, raw_map_single_In, IH. split.
+    + intros [(-> & -> & R) | (i & eid & Hi & -> & -> & R)].
+      * exists 0, e. simpl. repeat split; auto; lia.
+      * exists (S i), eid. simpl. repeat split; auto; lia.
+    + intros (i & eid & Hi & -> & -> & R). destruct i as [ | i]; simpl in Hi.
+      * inversion Hi; subst eid. left. repeat split; auto; lia.
+      * right. exists i, eid. repeat split; auto; lia.
+Qed.
+
+Lemma NoDup_nth_error_inj : forall {T} (l : list T) i j x, NoDup l -> nth_error l i = Some x -> nth_error l j = Some x -> i = j.
+Proof.
+  intros T l i j x ND Hi Hj. rewrite NoDup_nth_error in ND. apply ND; [ | congruence ].
+  apply nth_error_Some. congruence.
+Qed.
+
+Lemma static_functional : forall eids m cols offs rcol off,
+  (forall e, In e eids -> NoDup (wrt_of m e)) ->
+  functional (array_map_static eids m cols offs rcol off).
+Proof.
+  intros eids m cols offs rcol off ND [[[lr lc] rr] rc] [[[lr' lc'] rr'] rc'] H1 H2 E.
+  unfold lhs_of in E. inversion E; subst lr' lc'. clear E.
+  unfold array_map_static in *. apply static_from_In in H1, H2.
+  destruct H1 as (i & eid & Hi & Hr & -> & k & t & c & Hk & Hc & Hlc & ->).
+  destruct H2 as (i' & eid' & Hi' & Hr' & -> & k' & t' & c' & Hk' & Hc' & Hlc' & ->).
+  assert (i = i') by lia. subst i'. assert (eid = eid') by congruence. subst eid'.
+  assert (c = c') by lia. subst c'. assert (t = t') by (eapply col_of_inj; eauto). subst t'.
+  assert (k = k').
+  { eapply NoDup_nth_error_inj; [ apply (ND eid) | eauto | eauto ]. eapply nth_error_In; eauto. }
+  subst k'. reflexivity.
+Qed.
+
+(* THE PLACEMENT THEOREM for ArrayMap.static (A, D, F, G, J; B with its lagged columns; the steady Jacobian):
+   row i belongs to equation eids[i], column off+c to the token recorded for column c; the cell holds the diff
+   row of that token within that equation, and every other cell of the matrix is zero. *)
+Theorem array_map_places : forall {V} (zero : V) (td : nat -> nat -> V) eids m cols offs rcol off i eid k t c,
+  (forall e, In e eids -> NoDup (wrt_of m e)) ->
+  nth_error eids i = Some eid -> nth_error (wrt_of m eid) k = Some t -> col_of cols t = Some c ->
+  cell zero td (array_map_static eids m cols offs rcol off) i (off + c) = td (offset_of offs eid + k) rcol.
+Proof.
+  intros V zero td eids m cols offs rcol off i eid k t c ND Hi Hk Hc.
+  apply cell_hit; [ now apply static_functional | ].
+  unfold array_map_static. apply static_from_In. exists i, eid. repeat split; auto.
+  exists k, t, c. repeat split; auto.
+Qed.
+
+Theorem array_map_zero_elsewhere : forall {V} (zero : V) (td : nat -> nat -> V) eids m cols offs rcol off r cc,
+  (forall i eid k t c, nth_error eids i = Some eid -> nth_error (wrt_of m eid) k = Some t -> col_of cols t = Some c ->
+     (r, cc) <> (i, off + c)) ->
+  cell zero td (array_map_static eids m cols offs rcol off) r cc = zero.
+Proof.
+  intros V zero td eids m cols offs rcol off r cc H. apply cell_miss.
+  intros [[[lr lc] rr] rc] Hin E. unfold lhs_of in E. inversion E; subst lr lc.
+  unfold array_map_static in Hin. apply static_from_In in Hin.
+  destruct Hin as (i & eid & Hi & -> & -> & k & t & c & Hk & Hc & -> & ->).
+  exact (H i eid k t c Hi Hk Hc eq_refl).
+Qed.
+
+(* ---- the stacked diff array: where the rows of an equation start -------------------------------- *)
+Fixpoint prefix_len (m : emap) (l : list Z) : nat :=
+  match l with [] => 0 | e :: r => List.length (wrt_of m e) + prefix_len m r end.
+
+Lemma dict_get_offsets_none : forall m l acc e, ~ In e l -> dict_get (offsets_from m l acc) e = None.
+Proof.
+  intros m l. induction l as [ | x r IH]; intros acc e H; simpl; [ reflexivity | ].
+  rewrite IH by (intros Hin; apply H; now right).
+  destruct (Z.eqb x e) eqn:E; [ apply Z.eqb_eq in E; subst; exfalso; apply H; now left | reflexivity ].
+Qed.
+
+Lemma offset_of_split : forall m l1 e l2 acc, ~ In e l2 ->
+  offset_of (offsets_from m (l1 ++ e :: l2) acc) e = acc + prefix_len m l1.
+Proof.
+  intros m l1. induction l1 as [ | x r IH]; intros e l2 acc H; unfold offset_of in *; simpl.
+  - rewrite dict_get_offsets_none by assumption. rewrite Z.eqb_refl. lia.
+  - specialize (IH e l2 (acc + List.length (wrt_of m x)) H).
+    destruct (dict_get (offsets_from m (r ++ e :: l2) (acc + List.length (wrt_of m x))) e) as [n | ] eqn:E.
+    + lia.
+    + exfalso. clear IH. revert E. generalize (acc + List.length (wrt_of m x)). induction r as [ | y r' IHr]; intros a; simpl.
+      * rewrite dict_get_offsets_none by assumption. now rewrite Z.eqb_refl.
+      * destruct (dict_get (offsets_from m (r' ++ e :: l2) (a + List.length (wrt_of m y))) e) eqn:E'; [ discriminate | ].
+        exfalso. exact (IHr _ E').
+Qed.
+
+Section StackedRows.
+Variable rho : token -> R.
+Variable lg : Z -> bool.
+Variable m : emap.
+
+Lemma eq_rows_length : forall t wrt, List.length (eq_rows RD rho lg t wrt) = List.length wrt.
+Proof. intros. unfold eq_rows. apply map_length. Qed.
+
+Lemma td_rows_length : forall l : list (Z * tree RD), List.length (td_rows RD rho lg l m) = prefix_len m (map fst l).
+Proof.
+  induction l as [ | [e t] r IH]; [ reflexivity | ].
+  unfold td_rows. cbn [flat_map map fst snd prefix_len]. rewrite app_length, eq_rows_length. f_equal. exact IH.
+Qed.
+
+Lemma td_rows_nth : forall (l1 l2 : list (Z * tree RD)) eid t k tok,
+  nth_error (wrt_of m eid) k = Some tok ->
+  nth (prefix_len m (map fst l1) + k) (td_rows RD rho lg (l1 ++ (eid, t) :: l2) m) (dofZ RD 0)
+  = diff_of RD (eval_equation RD rho (ind RD tok) lg t).
+Proof.
+  intros l1 l2 eid t k tok Hk. unfold td_rows. rewrite flat_map_app. cbn [flat_map fst snd].
+  assert (HA : List.length (flat_map (fun et : Z * tree RD => eq_rows RD rho lg (snd et) (wrt_of m (fst et))) l1)
+               = prefix_len m (map fst l1)) by (apply td_rows_length).
+  rewrite app_nth2 by lia. rewrite HA.
+  replace (prefix_len m (map fst l1) + k - prefix_len m (map fst l1)) with k by lia.
+  assert (Hlt : k < List.length (wrt_of m eid)) by (apply nth_error_Some; congruence).
+  rewrite app_nth1 by (rewrite eq_rows_length; exact Hlt).
+  unfold eq_rows.
+  rewrite (nth_indep _ _ (diff_of RD (eval_equation RD rho (ind RD (0%Z, 0%Z)) lg t))) by (rewrite map_length; exact Hlt).
+  rewrite (map_nth (fun tk => diff_of RD (eval_equation RD rho (ind RD tk) lg t))).
+  f_equal. f_equal. f_equal. apply nth_error_nth with (d := (0%Z, 0%Z)) in Hk. now rewrite Hk.
+Qed.
+End StackedRows.
+
+Lemma nth_map_seq : forall {T} (f : nat -> T) n i d, i < n -> nth i (map f (seq 0 n)) d = f i.
+Proof.
+  intros T f n i d H. rewrite (nth_indep _ d (f 0)) by (rewrite map_length, seq_length; exact H).
+  rewrite (map_nth f (seq 0 n) 0 i). now rewrite seq_nth.
+Qed.
+
+(* entry (i, c) of a matrix of the unsolved system is the diff the evaluator computes for equation eids[i]
+   with the seed on the token of column c *)
+Theorem system_matrix_entry : forall rho lg (l1 l2 : list (Z * tree RD)) m eids cols i c eid t tok k,
+  ~ In eid (map fst l2) ->
+  (forall e, In e eids -> NoDup (wrt_of m e)) ->
+  nth_error eids i = Some eid -> col_of cols tok = Some c -> nth_error (wrt_of m eid) k = Some tok ->
+  nth c (nth i (system_matrix RD rho lg (l1 ++ (eid, t) :: l2) m eids cols) []) (dofZ RD 0)
+  = diff_of RD (eval_equation RD rho (ind RD tok) lg t).
+Proof.
+  intros rho lg l1 l2 m eids cols i c eid t tok k Hnot ND Hi Hc Hk.
+  unfold system_matrix.
+  assert (Hil : i < List.length eids) by (apply nth_error_Some; congruence).
+  assert (Hcl : c < List.length cols) by (apply nth_error_Some; rewrite (col_of_sound _ _ _ Hc); discriminate).
+  rewrite (nth_map_seq _ _ _ _ Hil). rewrite (nth_map_seq _ _ _ _ Hcl).
+  change c with (0 + c) at 1.
+  rewrite (array_map_places _ _ eids m cols _ 0 0 i eid k tok c ND Hi Hk Hc).
+  unfold create_eid_to_rhs_offset. rewrite map_app. simpl map.
+  rewrite offset_of_split by assumption. simpl. unfold td_of.
+  now apply td_rows_nth.
+Qed.
+
+Theorem system_matrix_zero : forall rho lg (eqs : list (Z * tree RD)) m eids cols i c eid tok,
+  nth_error eids i = Some eid -> col_of cols tok = Some c -> ~ In tok (wrt_of m eid) ->
+  nth c (nth i (system_matrix RD rho lg eqs m eids cols) []) (dofZ RD 0) = dofZ RD 0.
+Proof.
+  intros rho lg eqs m eids cols i c eid tok Hi Hc Hnot.
+  unfold system_matrix.
+  assert (Hil : i < List.length eids) by (apply nth_error_Some; congruence).
+  assert (Hcl : c < List.length cols) by (apply nth_error_Some; rewrite (col_of_sound _ _ _ Hc); discriminate).
+  rewrite (nth_map_seq _ _ _ _ Hil). rewrite (nth_map_seq _ _ _ _ Hcl).
+  apply array_map_zero_elsewhere.
+  intros i' eid' k t' c' Hi' Hk' Hc' E. inversion E; subst i' c'. simpl in *.
+  assert (eid' = eid) by congruence. subst eid'.
+  assert (t' = tok) by (eapply col_of_inj; eauto). subst t'.
+  apply Hnot. eapply nth_error_In; eauto.
+Qed.
+
+Lemma system_matrix_none_column : forall rho lg (eqs : list (Z * tree RD)) m eids cols i c,
+  i < List.length eids -> nth_error cols c = Some None ->
+  nth c (nth i (system_matrix RD rho lg eqs m eids cols) []) (dofZ RD 0) = dofZ RD 0.
+Proof.
+  intros rho lg eqs m eids cols i c Hil Hn.
+  unfold system_matrix.
+  assert (Hcl : c < List.length cols) by (apply nth_error_Some; congruence).
+  rewrite (nth_map_seq _ _ _ _ Hil). rewrite (nth_map_seq _ _ _ _ Hcl).
+  apply array_map_zero_elsewhere.
+  intros i' eid' k t' c' Hi' Hk' Hc' E. inversion E; subst i' c'. simpl in *.
+  apply col_of_sound in Hc'. congruence.
+Qed.
